@@ -59,6 +59,7 @@ def run(ctx):
                    "geometry::modular_solver::<impl geometry::traits::Entry for geometry::prime_residue_classes::PrimeResidueClass<P>>::clear_col", "field clear_col ~ field clear_col")
     i64_row_step(ctx, g)
     closed_form_determinants(ctx, g)
+    determinant_sign(ctx, g)
     ctx.clauses.append("gcdx is extended Euclid: r*A + s*B = +-gcd, t*A + u*B = 0, r*u - s*t = +-1 for every input (loop invariant decided on sampled states)")
     gx = ctx.body("geometry::traits::gcdx")
     ctx.scan([gx])
@@ -702,6 +703,84 @@ def i64_row_step(ctx, g):
             ctx.ob("T4-int-row-step", b.name, "columns:" + show(mt, 1)[:20], "ok" if okr else "violation",
                    "every column %s is transformed" % ("from col on (the earlier ones are zero in both rows)" if is_a and r_ and strip(r_[0]) == col else "0..nr_columns()") if okr else
                    "the row step does not cover the columns %s..nr_columns(): %s" % ("col" if is_a else "0", r_ and (show(r_[0], 1)[:30], show(r_[1], 1)[:40])))
+
+
+def determinant_sign(ctx, g):
+    """the general determinant is the product of the echelon diagonal, negated when the number of row exchanges is odd: in both row-echelon
+    constructors the counter starts at 0 and goes up by exactly 1 exactly where the two matrices are exchanged (under `pr != row`, on the same
+    path as the swap of u), and the determinant negates exactly for nr_swaps % 2 != 0.  One exchange of rows pr and row is ONE transposition
+    whatever their distance; counting the distance flips the sign for pivots two rows below."""
+    ctx.clauses.append("determinant sign: swap counter 0, +1 per row exchange under pr != row; negated iff nr_swaps is odd (T4, both twins)")
+    for nm, det in (("geometry::vec_matrix::RowEchelonVecMatrix::<T>::new", "geometry::vec_matrix::VecMatrix::<T>::determinant"),
+                    ("geometry::matrix::RowEchelonMatrix::<T, N, M>::new", "geometry::matrix::Matrix::<T, N, N>::determinant")):
+        b = ctx.body(nm)
+        ctx.scan([b])
+        bad = None
+        r = strip(norm(b.local_origin(0), g))
+        adt = ctx.facts.adts.get(r[1].replace("adt:", "").rsplit("::", 1)[0]) if r[0] == "agg" else None
+        cnt = None
+        if adt is not None:
+            names = [f["name"] for f in adt["variants"][0]["fields"]]
+            if "nr_swaps" in names and len(names) == len(r[2]):
+                cnt = strip(r[2][names.index("nr_swaps")])
+        if cnt is None or cnt[0] != "local":
+            bad = "the swap counter handed to the echelon form is not a local counter"
+        else:
+            defs = [(dbb, unov_deep(strip(norm(d, g)))) for dbb, d in b.all_defs_origins(cnt[1])]
+            ini = [d for dbb, d in defs if eval_int(d) is not None]
+            inc = [(dbb, d) for dbb, d in defs if eval_int(d) is None]
+            swaps = [(bi, [strip(norm(b.origin(x), g)) for x in t["args"]]) for bi, t in b.calls("::swap_rows")]
+            if [eval_int(d) for d in ini] != [0] or len(inc) != 1:
+                bad = "the swap counter is not `0`, then one update site (%d constant definitions, %d updates)" % (len(ini), len(inc))
+            elif inc[0][1] != ("binop", "Add", cnt, ("int", 1)):
+                bad = "the swap counter is advanced by %s, not by exactly 1 per exchange (one exchange of two rows is one transposition whatever their distance)" % show(inc[0][1], 1)[:60]
+            elif len(swaps) != 2 or swaps[0][1][1:] != swaps[1][1][1:]:
+                bad = "the two matrices are not exchanged by one swap_rows(pr, row) each on the same rows"
+            else:
+                ib = inc[0][0]
+                pr, row = swaps[0][1][1], swaps[0][1][2]
+                ne = lambda fa: any(a[0] == "rel" and a[1] == "Ne" and {strip(a[2]), strip(a[3])} == {pr, row} for a in (atom_norm(x, g) for x in fa))
+                if not ne(b.facts_at(ib)):
+                    bad = "the swap counter is advanced where `pivot row != row` does not hold: a pivot already in place counts as an exchange"
+                elif not all(ne(b.facts_at(sb)) for sb, _ in swaps):
+                    bad = "rows are exchanged outside the `pivot row != row` branch that counts the exchange"
+                else:
+                    lp = loop_containing(b, ib)
+                    hdr = lp[0] if lp else None
+                    first = [x for x in [ib] + [sb for sb, _ in swaps] if all(b.dominates(x, y) for y in [ib] + [sb for sb, _ in swaps])]
+                    if hdr is None or not first or not all(must_pass_through(b, first[0], x, hdr) for x in [ib] + [sb for sb, _ in swaps]):
+                        bad = "an exchange of rows can happen without the counter being advanced (or the reverse)"
+        ctx.ob("T4-determinant-sign", b.name, "nr_swaps: 0, +1 per exchange", "ok" if not bad else "violation",
+               "counter 0; +1 on the path that exchanges rows pr and row of both matrices, under pr != row" if not bad else bad)
+        # the determinant's use of the parity
+        d = ctx.body(det)
+        ctx.scan([d])
+        bad = None
+        negs = [bi for bi, t in d.calls("ops::Neg::neg")]
+        if len(negs) != 1:
+            bad = "%d negations in the determinant (one expected, for an odd number of exchanges)" % len(negs)
+        else:
+            def val(k):
+                def f(y):
+                    y = strip(y)
+                    if y[0] == "field" and y[2] == "nr_swaps":
+                        return k
+                    return None
+                return f
+            sw = None
+            for bi, blk in d.live_blocks():
+                t = blk["term"]
+                if t["k"] == "switch" and contains(strip(norm(d.origin(t["discr"]), g)), lambda y: isinstance(y, tuple) and y and y[0] == "field" and y[2] == "nr_swaps"):
+                    sw = bi
+            if sw is None:
+                bad = "no test on nr_swaps in the determinant"
+            else:
+                for k in (0, 1, 2, 3, 5):
+                    rch = bool(reachable_sites(d, g, {negs[0]}, val(k), start=sw))
+                    if rch != (k % 2 == 1):
+                        bad = bad or "with %d row exchanges the product of the diagonal is %s" % (k, "negated" if rch else "not negated")
+        ctx.ob("T4-determinant-sign", d.name, "negated iff nr_swaps odd", "ok" if not bad else "violation",
+               "the diagonal product is negated exactly for an odd number of row exchanges" if not bad else bad)
 
 
 def stripcalls(t):
